@@ -94,6 +94,8 @@ MUTANTS = {
         ('commit-order', FD, "let bufs = [IoSlice::new(self.buf.as_slice()), IoSlice::new(o)];\n                writev(self.fd, &bufs)\n            }\n        };\n\n        res.map_err(|e| io::Error::from_raw_os_error(e as i32))", "let bufs = [IoSlice::new(o), IoSlice::new(self.buf.as_slice())];\n                writev(self.fd, &bufs)\n            }\n        };\n\n        res.map_err(|e| io::Error::from_raw_os_error(e as i32))"),
     ],
     'C06': [
+        ('pt-rename-newname-ungated', 'src/passthrough/sync_io.rs', "        self.validate_path_component(oldname)?;\n        self.validate_path_component(newname)?;\n", "        self.validate_path_component(oldname)?;\n"),
+        ('pt-mknod-gate-result-ignored', 'src/passthrough/sync_io.rs', "        rdev: u32,\n        umask: u32,\n    ) -> io::Result<Entry> {\n        self.validate_path_component(name)?;\n", "        rdev: u32,\n        umask: u32,\n    ) -> io::Result<Entry> {\n        let _ = self.validate_path_component(name);\n"),
         ('vfs-unlink-no-check', VS, "    fn unlink(&self, ctx: &Context, parent: VfsInode, name: &CStr) -> Result<()> {\n        validate_path_component(name)?;\n", "    fn unlink(&self, ctx: &Context, parent: VfsInode, name: &CStr) -> Result<()> {\n"),
         ('dot-only', V, "    bytes.starts_with(CURRENT_DIR_CSTR) || bytes.starts_with(PARENT_DIR_CSTR)", "    bytes.starts_with(CURRENT_DIR_CSTR)"),
         ('vfs-lookup-no-slash-check', VS, "        if name.to_bytes_with_nul().contains(&SLASH_ASCII) {\n            return Err(io::Error::from_raw_os_error(libc::EINVAL));\n        }\n\n        match self.get_real_rootfs(parent)? {\n            (Left(fs), idata) => self.lookup_pseudo(fs, idata, ctx, name),", "        match self.get_real_rootfs(parent)? {\n            (Left(fs), idata) => self.lookup_pseudo(fs, idata, ctx, name),"),
